@@ -63,6 +63,7 @@ fn main() {
             }
             None => 2,
         },
+        Some("selftest") => orch::selftest_determinism(&|p| engines::engine_of(p), args.get(2).and_then(|s| s.parse().ok()).unwrap_or(1200)),
         Some("replay") if args.len() >= 2 => orch::replay_main(&|p| engines::engine_of(p), &args[1]),
         Some("replay-inner") if args.len() >= 2 => {
             let case: Option<orch::Case> = std::fs::read_to_string(&args[1]).ok().and_then(|s| serde_json::from_str(&s).ok());
